@@ -26,6 +26,7 @@ LEVEL_NOTE = ('pinv / LU / Cholesky / splu numerics are SciPy\'s (contract: Penr
 RULE = ('matrices: SPD, nonsymmetric, singular with identically zero rows and columns, 1x1, all-zero, real/complex, n<=10; '
         'solvers pinv/lu/cholesky/splu/cg/gmres/bicgstab/gauss_seidel/jacobi/... /None/callable/(name,opts); b (n,) and '
         '(n,1); sequences of 3-5 calls on one object vs dense reference and vs a fresh object.  Non-trivial: nonzero matrix.')
+RULE += (' Also a complex symmetric (non-Hermitian) matrix, SPD matrices in unsorted CSR storage, and the coarse solvers schwarz / block_jacobi / chebyshev.')
 RULE += (' '
          'Also matrices that need pivoting (tiny / zero diagonal entries; direct solvers only), integer right-hand sides and real right-hand sides for complex matrices (direct solvers only).')
 THOROUGH_ROUNDS = 5
@@ -43,6 +44,12 @@ def mats(rng):
     out.append(('nonsym-6', N, 'nonsym'))
     u = np.exp(1j * np.arange(5) * 0.9)
     out.append(('complex-5', np.diag(u) @ gen.poisson_like(rng, 5) @ np.diag(u.conj()), 'spd'))
+    # complex SYMMETRIC, not Hermitian (a damped Helmholtz-type operator K - k^2 I + i C): equal to its transpose, not to its adjoint
+    K6 = gen.poisson_like(rng, 6)
+    out.append(('complex-symmetric-6', K6 - 0.3 * np.eye(6) + 1j * np.diag([0.5, 1.0, 0.25, 2.0, 1.5, 0.75]) + 0.2j * (K6 - np.diag(np.diag(K6))), 'nonsym'))
+    # SPD matrices whose CSR rows are stored in a shuffled column order (valid CSR; what a product B @ B.T gives)
+    out.append(('spd-8/unsorted', gen.poisson_like(rng, 8), 'spd'))
+    out.append(('spd-9/unsorted', gen.poisson_like(rng, 9), 'spd'))
     Z = np.zeros((7, 7))
     idx = [0, 2, 3, 6]
     Z[np.ix_(idx, idx)] = gen.poisson_like(rng, 4)
@@ -76,10 +83,12 @@ def run(ctx):
         if mname.endswith('/explicit-zeros'):
             A = sp.csr_array(np.ones_like(Ad))
             A.data[:] = np.asarray(Ad).ravel()          # every entry stored, zeros included
+        if mname.endswith('/unsorted'):
+            A = gen.unsorted_copy(A, rng)
         cplx = np.iscomplexobj(Ad)
         solvers = ['pinv', 'lu', 'cholesky', 'splu', ('pinv', {}), ('cholesky', {'lower': True}), ('lu', {'check_finite': False}), None,
                    'cg', 'gmres', 'bicgstab', 'gauss_seidel', 'jacobi', 'sor', 'block_gauss_seidel', 'richardson',
-                   ('gauss_seidel', {'iterations': 30}), 'callable']
+                   ('gauss_seidel', {'iterations': 30}), 'callable', 'schwarz', 'block_jacobi', 'chebyshev', ('schwarz', {'iterations': 3})]
         for sv in solvers:
             sname = sv if isinstance(sv, str) or sv is None else sv[0]
             if sname == 'cholesky' and kind not in ('spd',):
@@ -90,7 +99,7 @@ def run(ctx):
                 continue
             if sname in ('cg',) and kind not in ('spd',):
                 continue
-            if sname in ('gmres', 'bicgstab', 'cg', 'gauss_seidel', 'jacobi', 'sor', 'block_gauss_seidel', 'richardson') and kind in ('singular', 'singular-zero'):
+            if sname in ('gmres', 'bicgstab', 'cg', 'gauss_seidel', 'jacobi', 'sor', 'block_gauss_seidel', 'richardson', 'schwarz', 'block_jacobi', 'chebyshev') and kind in ('singular', 'singular-zero'):
                 continue
             if kind == 'pivot' and sname not in ('pinv', 'lu', 'splu', 'callable'):
                 continue
@@ -98,6 +107,8 @@ def run(ctx):
                 sv = ('sor', {'omega': 1.2})
             case = dict(matrix=mname, solver=repr(sv), dense=Ad.real.tolist() if not cplx else None)
             ctx.mark(case)
+            if mname.endswith('/unsorted'):
+                A = gen.unsorted_copy(sp.csr_array(Ad), rng)      # a fresh unsorted copy per solver (a solver may sort its argument)
             try:
                 if sv == 'callable':
                     P = np.linalg.pinv(Ad, rcond=Ad.shape[0] * np.finfo(float).eps)
